@@ -264,17 +264,17 @@ def generate(ctx):
     cases = [{"name": "d-" + n, "spec": s, "pop": "directed", "pinned": pin} for n, s, pin in DIRECTED]
     quick = ctx.tier == "quick"
     ncore = ctx.size(quick=10, thorough=160)
-    ncomm = ctx.size(quick=8, thorough=120)
+    ncomm = ctx.size(quick=6, thorough=120)
     max_paths = 80 if quick else 1200
     bound = 120 if quick else 2500
     for i in range(ncore):
         rng = ctx.sub_rng("core", i)
         kw = {}
-        if i % 3 == 2:
-            kw["want_failure"] = False          # a third of the programs without assertions
+        if i % 2 == 0:
+            kw["clean"] = True                  # half of the programs without any reachable failure, >= 2 outcomes
         p, _ = mcprog2.core(rng, max_paths, **kw)
         cases.append({"name": "core%d" % i, "spec": mcprog2.text(p), "pop": "core"})
-    exts = ["wait", "test", "waitany", "wait", "test", "waitany", "testany", "wait"]
+    exts = ["wait", "test", "waitany", "wait", "testany", "wait", "test", "waitany"]
     for i in range(ncomm):
         rng = ctx.sub_rng("comm", i)
         p, _ = mcprog2.comm(rng, exts[i % len(exts)], bound)
